@@ -274,3 +274,31 @@ Example C12_put_partial_nonvacuous :
   map ch_log (chans (cb_run callback_worker_queue es)) =
     [[JBeacon 1; JBeacon 2]; [JBeacon 1; JBeacon 2; JBeacon 3]].
 Proof. vm_compute. split; [discriminate | reflexivity]. Qed.
+
+(* isolation by index has instances in which an eviction really happens: signer 1 is at the cap,
+   its next id evicts its own oldest entry, signer 2's entry in that same round cache survives *)
+Example C12_isolation_by_index_nonvacuous :
+  let c := pc_run max_partials_per_node pc_init
+             (CAppend 2 (5, [0]) :: one_signer_flood (Z.to_nat max_partials_per_node)) in
+  has_entry c 1 (5, [0]) = true /\ has_entry c 2 (5, [0]) = true /\
+  let c' := fst (pc_append max_partials_per_node c 1 (5, [7; 7])) in
+  has_entry c' 1 (5, [0]) = false /\ has_entry c' 2 (5, [0]) = true.
+Proof. vm_compute. repeat split; reflexivity. Qed.
+
+(* the continuation hypotheses of C12_put_blocked_while_stalled are satisfiable by calls that then
+   never return: AddCallback, RemoveCallback of the stalled consumer, another Put *)
+Example C12_put_blocked_nonvacuous :
+  Forall (not_release_of 0) [EAdd 2 true; ERemove 1; EPut 777; ERelease 1 false] /\
+  ret (cb_run_from callback_worker_queue stalled_state (S blocked_put) [EAdd 2 true; ERemove 1; EPut 777]) = ret stalled_state.
+Proof.
+  split; [|vm_compute; reflexivity].
+  repeat constructor; intros kz rm E; inversion E; vm_compute; discriminate.
+Qed.
+
+Example C12_put_served_nonvacuous :
+  let es := [EAdd 1 false; EAdd 2 true; EPut 5] in
+  registered_has (cb_run callback_worker_queue (es ++ [EPut 6])) 6 /\
+  cbs (cb_run callback_worker_queue (es ++ [EPut 6])) = [(1, 0%nat); (2, 1%nat)].
+Proof.
+  split; [apply C12_put_others_served; [reflexivity | vm_compute; discriminate | discriminate] | vm_compute; reflexivity].
+Qed.
